@@ -116,6 +116,51 @@ theorem C05_noninteger_real_partial {D : Type} (c : Codec D) (x : D) (rest : Byt
     readItem false .dbl (c.enc x ++ 10 :: rest) = (.ok ⟨0, c.enc x⟩, rest) :=
   readItem_num (c.enc x) rest h
 
+/-! ### non-integral reals: "within 1e-15 relative", fmt and strtod as explicit assumptions (ROUND 7) -/
+
+/-- **Arithmetic core of the numeric clause.**  If the printed decimal `d` is a nearest 16-significant-digit decimal of `x` (`G16`, assumption on fmt) and the
+double `y` read back is a nearest double of `d` in the normal range (`CorrRounded`, assumption on strtod), then `|y - x| ≤ 10^-15·|x|`
+(in fact `≤ (5·10^-16 + 2^-53)(1 + …)|x| ≈ 6.2·10^-16 |x|`). -/
+theorem C05_within_1e15 (x d y : Rat) (hp : G16 x d) (hr : CorrRounded d y) : rabs (y - x) ≤ rabs x / 1000000000000000 := by
+  obtain ⟨s, hs, h16, hh⟩ := hp
+  unfold CorrRounded at hr
+  unfold rabs at *
+  grind
+
+/-- **Vectors of arbitrary finite reals, any length.**  `val v` is the value of the datum `v`, `S t` the double `strtod` returns for the text `t`.
+Proved about the models: the handler receives exactly the printed texts (under the codec hypothesis `GoodNum` on the texts, evaluated on every run).
+Under the two stated ASSUMPTIONS on the real conversions — for the values of this vector, fmt printed a nearest 16-digit decimal (`G16`) and strtod returned
+a nearest double of that decimal in the normal range (`CorrRounded`) — every value comes back within `10^-15` relative. -/
+theorem C05_real_vector_within_1e15 {D : Type} (c : Codec D) (val : D → Rat) (S : Bytes → Rat) (vs : List D) (rest : Bytes)
+    (hgood : ∀ v ∈ vs, GoodNum (c.enc v))
+    (hconv : ∀ v ∈ vs, ∃ d, decValue (c.enc v) = some d ∧ G16 (val v) d ∧ CorrRounded d (S (c.enc v))) :
+    runVec false .dbl .all vs.length (writeVals c vs ++ rest) =
+      (⟨vs.length, vs.map (fun v => ⟨0, c.enc v⟩), .ok, 0⟩, rest) ∧
+    ∀ v ∈ vs, rabs (S (c.enc v) - val v) ≤ rabs (val v) / 1000000000000000 := by
+  refine ⟨runVec_vals c vs rest hgood, fun v hv => ?_⟩
+  obtain ⟨d, _, hg, hc⟩ := hconv v hv
+  exact C05_within_1e15 (val v) d (S (c.enc v)) hg hc
+
+/-- non-vacuity: `x = 1/3` printed as `0.3333333333333333`: the text has the exact value `3333333333333333·10^-16`, `G16` holds with `s = 10^-16`, and a
+`y` equal to that decimal is within the bound; an 8-digit text (`0.33333333`) does NOT satisfy `G16` for `1/3` with any unit `s` — the assumption has content. -/
+theorem C05_within_1e15_instance :
+    decValue (str "0.3333333333333333") = some (3333333333333333 / 10000000000000000) ∧
+    G16 (1 / 3) (3333333333333333 / 10000000000000000) ∧
+    CorrRounded (3333333333333333 / 10000000000000000) (3333333333333333 / 10000000000000000) ∧
+    ¬ G16 (1 / 3) (33333333 / 100000000) := by
+  refine ⟨?_, ⟨1 / 10000000000000000, ?_, ?_, ?_⟩, ?_, ?_⟩
+  · have h : parseDec (str "0.3333333333333333") = some (3333333333333333, -16) := by decide
+    simp only [decValue, h, Option.map_some]
+    have : pow10 (-16) = 1 / 10000000000000000 := by simp [pow10]
+    rw [this]; grind
+  · grind
+  · unfold rabs; grind
+  · unfold rabs; grind
+  · unfold CorrRounded rabs; grind
+  · rintro ⟨s, hs, h1, h2⟩
+    unfold rabs at *
+    grind
+
 /-- integer suffix values in the C `int` range always satisfy the hypotheses on suffix entries … -/
 theorem C05_int_entries_good (vs : List Int) (h : ∀ v ∈ vs, Int32 v) :
     ∀ e ∈ sparseI 0 vs, e.1 < vs.length ∧ GoodSufTok e.2 := by
